@@ -69,6 +69,8 @@ type Summary struct {
 	EndCounts  map[string]int   `json:"run_end_counts"`
 }
 
+var siteNames = map[int64]string{}
+
 func sitesCount(path string) int {
 	if path == "" {
 		return 0
@@ -79,9 +81,18 @@ func sitesCount(path string) int {
 	}
 	var v struct {
 		PSites int `json:"p_sites"`
+		Sites  []struct {
+			ID   int64  `json:"id"`
+			File string `json:"file"`
+			Line int    `json:"line"`
+			Func string `json:"func"`
+		} `json:"sites"`
 	}
 	if json.Unmarshal(b, &v) != nil {
 		return 0
+	}
+	for _, s := range v.Sites {
+		siteNames[s.ID] = fmt.Sprintf("%s:%d (%s)", s.File, s.Line, s.Func)
 	}
 	return v.PSites
 }
@@ -121,7 +132,11 @@ func mkReplay(prop string, seed uint64, worker, run int, o *h.RunOut, mine []h.V
 			r.Schedule = append(r.Schedule, fmt.Sprintf("... %d more steps", len(o.Trace)-i))
 			break
 		}
-		r.Schedule = append(r.Schedule, fmt.Sprintf("step %d task %d %s %d %d", t.Step, t.Task, simrt.OpName(t.Op), t.A, t.B))
+		line := fmt.Sprintf("step %d task %d %s %d %d", t.Step, t.Task, simrt.OpName(t.Op), t.A, t.B)
+		if simrt.OpName(t.Op) == "yield" && t.A > 0 {
+			line += "  pre-empted before " + siteNames[t.A]
+		}
+		r.Schedule = append(r.Schedule, line)
 	}
 	for i, e := range o.Events {
 		if i >= 2000 {
